@@ -297,6 +297,15 @@ fn run_property(o: &Opts, out: &mut dyn Write) -> i32 {
         total.merge(run_cases(&o.drv, &o.tmp, corpus_cases, o.threads));
     }
 
+    {
+        let known = load_known(&o.known);
+        let mut k = KNOWN_KEYS.lock().unwrap();
+        for (p, key, _) in &known.findings {
+            if p == prop {
+                k.push(key.clone());
+            }
+        }
+    }
     let cases: Vec<Case> = match prop {
         "C01" => props::c01(&mut rng, &o.tier),
         "C02" => props::c02(&mut rng, &o.tier),
@@ -463,7 +472,8 @@ fn run_property(o: &Opts, out: &mut dyn Write) -> i32 {
         vio_lines.push(format!("VIOLATION property={} replay={}{}", prop, path, if nf { " no-failing-input-found" } else { "" }));
     }
     // mismatches beyond the stored cap count as violations as well
-    let unstored = total.mismatch_count.saturating_sub(total.mismatches.len() as u64);
+    let stored_known = total.mismatches.iter().filter(|m| known.findings.iter().any(|(p, key, _)| p == prop && m.oracle && (m.key == *key || m.key.starts_with(&format!("{}/", key))))).count() as u64;
+    let unstored = (total.mismatch_count - total.known_count).saturating_sub(total.mismatches.len() as u64 - stored_known);
     for l in &vio_lines {
         writeln!(out, "{}", l).unwrap();
     }
@@ -483,7 +493,7 @@ fn run_property(o: &Opts, out: &mut dyn Write) -> i32 {
     j.push_str(&format!("  \"disagreements_model\": {},\n", total.mismatch_count - total.oracle_count));
     j.push_str(&format!("  \"violations_oracle\": {},\n", total.oracle_count));
     j.push_str(&format!("  \"violations\": {},\n", violations + unstored));
-    j.push_str(&format!("  \"known_findings_hit\": {},\n", known_hits.values().sum::<u64>()));
+    j.push_str(&format!("  \"known_findings_hit\": {},\n", total.known_count));
     j.push_str(&format!("  \"corpus_cases\": {},\n", ncorpus));
     j.push_str(&format!("  \"exhaustive\": {},\n", exhaustive));
     j.push_str(&format!("  \"profile\": {},\n", jstr(&o.profile)));
